@@ -11,6 +11,8 @@ Sub-checks
   random_histories             Hypothesis RuleBasedStateMachine: random fields, options, payloads, truncation, bit flips
   back_to_back_quiescence      two real handlers wired back to back; every emitted datagram (heartbeat echoes excepted) is
                                delivered to the other side until nothing is in flight: bounded number of deliveries
+  class_runs                   every class repeated 300 / 1000 times in each of {fresh, connected, closed}, both handler kinds, plain and
+                               with garbage / truncated datagrams / acks / heartbeats interleaved (thresholds that only long runs reach)
   counter_wrap_long_run        one fresh handler, > 2^16 registration requests without any shortcut (thorough only)
 """
 from __future__ import annotations
@@ -29,7 +31,7 @@ RULE = (
     "data+RRS registration, data+RRS going-offline, data+RRS status check, data+other HDAP (captured RCP/LP/TMP vectors and "
     "generated TMP text messages), data-ack, reject (with / without payload), damaged (truncation, 1-3 bit flips of one of the "
     "former, garbage)}; (a) ALL class sequences up to 'exhaustive_history_length' with position-dependent concrete fields, "
-    "(b) random histories up to 60 (quick) / 200 (thorough) datagrams with random S/N, option lists (0-3 documented options), "
+    "(b) random histories up to 50 (quick) / 200 (thorough) steps, a step being one datagram or a repeated block (the same op or 2-3 ops, 2..300 times, also with garbage / acks interleaved), with random S/N, option lists (0-3 documented options), "
     "radio addresses, payloads and damage, optionally starting from an own S/N counter near 2^16, (c) the same classes "
     "injected into two handlers wired back to back.  Oracle: reference model (connected flag, registry) + reference decoding "
     "of every emitted datagram.  Distinct = hash of the op sequence (enumeration: distinct by construction); non-trivial = the "
@@ -80,6 +82,7 @@ TYPE_BITS = {"connect": R.CONNECT, "connect_ack": R.CONNECT | R.ACK, "close": R.
              "rrs_register": 0, "rrs_offline": 0, "rrs_status": 0, "data_other": 0, "data_ack": R.ACK, "reject": R.REJECT}
 RRS_OPCODE = {"rrs_register": R.RRS_REQUEST, "rrs_offline": R.RRS_OFFLINE, "rrs_status": R.RRS_STATUS_CHECK}
 PINGPONG_BOUND = 3
+REPEAT_COUNTS = [2, 3, 4, 5, 6, 7, 8, 9, 10, 11, 12, 16, 17, 31, 32, 33, 64, 100, 128, 255, 256, 257, 300]
 
 
 # ------------------------------------------------------------------------------------------ building datagrams from ops
@@ -258,9 +261,12 @@ class Runner:
             self.real.sn = int(op.get("sn", 0))
             self.st["init_sn"] += 1 if op.get("sn") else 0
             return
-        if k == "repeat":
+        if k == "repeat":  # the same op, or the same short block of ops, n times
+            block = op["ops"] if "ops" in op else [op["op"]]
+            self.st["longest_repeat"] = max(self.st.get("longest_repeat", 0), op["n"])
             for _ in range(op["n"]):
-                self.apply(op["op"])
+                for o in block:
+                    self.apply(o)
             return
         self.st["n"] += 1
         self.opc[op["cls"]] += 1
@@ -447,7 +453,9 @@ class Runner:
         for name, flag in [("connect_and_data", s["connect"] and s["data"]), ("has_ack_class", s["ackcls"]), ("damaged_datagram_made_handler_react", s["damaged_reacted"]),
                            ("heartbeat_while_connected", s["hb_conn"]), ("heartbeat_while_disconnected", s["hb_disc"]),
                            ("registration_after_offline", s["reg_after_offline"]), ("ack_is_exact_echo_of_type_and_options", s["ack_exact_echo"]),
-                           ("ack_of_other_form", s["ack_other_form"]), ("preset_sn_counter", s["init_sn"]), ("plain_hstrp_handler", self.kind == "hstrp")]:
+                           ("ack_of_other_form", s["ack_other_form"]), ("preset_sn_counter", s["init_sn"]), ("plain_hstrp_handler", self.kind == "hstrp"),
+                           ("repeat_block_2_to_9_times", 2 <= s.get("longest_repeat", 0) < 10), ("repeat_block_10_to_99_times", 10 <= s.get("longest_repeat", 0) < 100),
+                           ("repeat_block_100_or_more_times", s.get("longest_repeat", 0) >= 100)]:
             if flag:
                 out.append(name)
         return out
@@ -473,6 +481,11 @@ class PairRunner:
         self.opc = collections.Counter()
 
     def apply(self, op):
+        if op["k"] == "repeat":
+            for _ in range(op["n"]):
+                for o in op["ops"] if "ops" in op else [op["op"]]:
+                    self.apply(o)
+            return
         if op["k"] != "d":
             return
         self.n_inj += 1
@@ -794,7 +807,16 @@ def _strategies(pair: bool = False):
     ip4 = st.binary(min_size=4, max_size=4).map(bytes.hex)
     radio = st.one_of(st.sampled_from(RADIOS), st.sampled_from(RADIOS), ip4)
     src = st.integers(0, len(PEERS) - 1)
-    text = st.text(max_size=12)
+    # texts: random, constant fill, a short record repeated, characters codecs treat specially (BOM, U+FFFE, U+FFFD, NUL, CR/LF) and
+    # characters whose UTF-16-LE image contains the octets of an enclosing layer ('2B' magic, 0x03 HDAP end, 7E, option TLV headers)
+    special = st.sampled_from(["\ufeff", "\ufffe", "\ufffd", "\x00", "\r\n", " ", "\t", "\u4232", "\u0003", "\u0303", "\u007e", "\u0483", "\u0011", "\u0300", "\u0500"])
+    text = st.one_of(
+        st.text(max_size=12),
+        st.builds(lambda c, n: c * n, st.sampled_from(["A", "\x00", "\u4232", "\u0303"]), st.integers(1, 40)),
+        st.builds(lambda r, n: r * n, st.text(min_size=1, max_size=3), st.integers(2, 12)),
+        st.builds(lambda a, m, b, e: a + m + b + e, st.one_of(st.just(""), special), st.text(max_size=6), special, st.one_of(st.just(""), special)),
+        st.builds(lambda pre, m: pre + m, st.text(min_size=6, max_size=8), special),
+    )
     tmp = st.builds(lambda g, rid, d, s, x, rel, conf: {"tmp": {"group": g, "rid": rid, "dst": d, "src": s, "text": x, "reliable": rel, "confirmed": conf}},
                     st.booleans(), st.integers(0, 2**32 - 1), ip4, ip4, text, st.booleans(), st.booleans())
     tmp_raw = st.builds(lambda g, rid, d, s, x: {"tmp_raw": {"group": g, "rid": rid, "dst": d, "src": s, "text_hex": x.hex()}},
@@ -832,6 +854,20 @@ def _strategies(pair: bool = False):
     )
     rules = dict(wf)
     rules["damaged"] = damaged
+    # long homogeneous runs: the same op, or a short block (op + garbage / op + ack / two or three ops), N times
+    garbage = st.one_of(mk("damaged", raw=st.binary(max_size=12).map(bytes.hex)), mk("damaged", base=base, trunc=st.integers(0, 5)))
+    anyop = st.one_of(base, base, damaged)
+    block = st.one_of(
+        anyop.map(lambda o: [o]),
+        anyop.map(lambda o: [o]),
+        st.tuples(anyop, garbage).map(list),
+        st.tuples(anyop, wf["data_ack"]).map(list),
+        st.tuples(anyop, anyop).map(list),
+        st.tuples(anyop, garbage, anyop).map(list),
+    )
+    small = st.sampled_from([2, 3, 4, 5, 6, 7, 8, 9, 10, 11, 12, 16, 17, 31, 32, 33])
+    n_rep = st.one_of(small, small, st.sampled_from(REPEAT_COUNTS)) if not pair else st.sampled_from([2, 3, 5, 10, 11, 17])
+    rules["repeat"] = st.fixed_dictionaries({"k": st.just("repeat"), "n": n_rep, "ops": block})
     return rules
 
 
@@ -847,9 +883,39 @@ def drv_random(ctx: Ctx, sub: SubCheck):
     M = make_machine("HSTRPHandlerMachine", Runner, _strategies(), initial_ops=_initial_ops())
 
     def work(shard, t: Tally):
-        ctx.state_machine(sub.name, M, max_examples=ctx.pick(30, 100), step_count=ctx.pick(60, 200), tally=t, shard=shard)
+        ctx.state_machine(sub.name, M, max_examples=ctx.pick(20, 100), step_count=ctx.pick(50, 200), tally=t, shard=shard)
 
     ctx.shards(work, list(range(16)))
+
+
+def drv_runs(ctx: Ctx, sub: SubCheck):
+    """every class repeated 300 times in each of {fresh, connected, closed}, for both handler kinds; plain, with position-dependent
+    fields, and with garbage / truncated datagrams / acks interleaved (which must not reset or trigger anything)"""
+    n = ctx.pick(300, 1000)
+    connect, close = exh_op(CLASSES.index("connect"), 0), exh_op(CLASSES.index("close"), 1)
+    modes = {"fresh": [], "connected": [connect], "closed": [connect, close]}
+    garbage = {"k": "d", "cls": "damaged", "src": 0, "raw": "00112233445566778899"}
+    cut = {"k": "d", "cls": "damaged", "src": 0, "base": exh_op(CLASSES.index("rrs_register"), 0), "trunc": 5}
+    ack = exh_op(CLASSES.index("data_ack"), 0)
+    hb = exh_op(CLASSES.index("heartbeat"), 0)
+    items = [(kind, mode, ci) for kind in ("rrs", "hstrp") for mode in modes for ci in range(len(CLASSES))]
+
+    def work(item, t: Tally):
+        kind, mode, ci = item
+        op = exh_op(ci, 2)
+        blocks = {"same_op": [op], "position_variants": [exh_op(ci, p) for p in range(8)], "with_garbage": [op, garbage], "with_truncated": [op, cut],
+                  "with_ack": [op, ack], "heartbeat_between": [op, hb]}
+        for name, block in blocks.items():
+            reps = n if len(block) <= 2 else max(1, n // len(block))
+            case = {"ops": [{"k": "init", "handler": kind, "sn": 0}] + modes[mode] + [{"k": "repeat", "n": reps, "ops": block}, hb, connect, hb, close, hb]}
+            ctx.run_case(sub.name, oracle_history, case, t)
+            t.case(sub.name, nontrivial=True, cls=f"{mode}_{name}")
+            t.cls(sub.name, f"class_{CLASSES[ci]}")
+        t.sample(sub.name, {"handler": kind, "mode": mode, "class": CLASSES[ci], "repeats": n})
+
+    ctx.shards(work, items)
+    ctx.tally.exhaustive[sub.name] = True
+    ctx.tally.notes.append(f"{sub.name}: each of the 12 classes x {{fresh, connected, closed}} x both handler kinds x 6 block shapes, {n} repetitions, every datagram judged")
 
 
 def drv_long(ctx: Ctx, sub: SubCheck):
@@ -862,6 +928,7 @@ def drv_long(ctx: Ctx, sub: SubCheck):
 SUBCHECKS = [
     SubCheck("exhaustive_class_sequences", oracle_history, drv_exhaustive, "all sequences over the 12 datagram classes up to length 5 (quick) / 6 (thorough) vs the reference model"),
     SubCheck("random_histories", oracle_history, drv_random, "Hypothesis RuleBasedStateMachine histories (<= 60 / 200 datagrams) with random fields, truncation and bit corruption"),
+    SubCheck("class_runs", oracle_history, drv_runs, "every class repeated 300 (quick) / 1000 (thorough) times in each mode {fresh, connected, closed}, both handler kinds, also interleaved with garbage / acks"),
     SubCheck("back_to_back_quiescence", oracle_pair, drv_pair, "two handlers wired back to back: quiescent after <= 3 deliveries per injected datagram"),
     SubCheck("counter_wrap_long_run", oracle_history, drv_long, "66 000 registration requests to one fresh handler (own S/N crosses 2^16)", tiers=("thorough",)),
 ]
